@@ -238,7 +238,7 @@ def obligations(tier, seed):
                           bounds="cells %d..%d of %d (truth kind x generated shape of lib/grid.py outside the known-finding regions of the round-trip "
                           "family - grid_clean), all three kinds given, both targets %s, function target is a %s"
                           % (lo, hi - 1, ncell, PRE[pre_], "method" if m else "top-level function"),
-                          timeout=280 if tier == "quick" else 1200, path_timeout=120, funcs=FUNCS))
+                          timeout=600 if tier == "quick" else 1800, path_timeout=120, funcs=FUNCS))
     for t in range(3):
         for m in (0, 1):
             for via in (False, True):
